@@ -352,6 +352,62 @@ theorem C02_sse_transparent (id data : Text) (hid : NoNL id) (h0 : 0 ∉ id) (hn
   rw [dispatch_after_data _ (splitOn_ne_nil _) _ rfl, joinLF_splitOn]
   simp
 
+/-! ### a whole stream of events (any number, one after the other on the same connection) -/
+
+private theorem fold_event_lines (ls : List Text) (hne : ls ≠ []) (st : PS) (hd : st.data = []) :
+    (ls.map (t!"data: " ++ ·) ++ [[]]).foldl stepLine st =
+      { st with data := [], events := (st.lastId, joinLF ls) :: st.events } := by
+  rw [List.foldl_append, fold_data]
+  simp [stepLine, hd, hne]
+
+/-- what one well-formed event followed by anything does to the reader's state -/
+private theorem run_writeEvent (id data rest : Text) (hid : NoNL id) (h0 : 0 ∉ id) (hne : data ≠ []) (hcr : 13 ∉ data)
+    (st : PS) (hd : st.data = []) :
+    (cutLines (writeEvent id data ++ rest)).1.foldl stepLine st =
+      (cutLines rest).1.foldl stepLine
+        { st with lastId := id, data := [], events := (id, trimSuffixLF data) :: st.events } := by
+  have hpieces := splitOn_pieces (trimSuffixLF data) (trimSuffixLF_noCR data hcr)
+  have hpre : NoNL t!"data: " := by simp [NoNL]
+  have hidl : NoNL (t!"id: " ++ id) := NoNL_append (by simp [NoNL]) hid
+  have hw : writeEvent id data ++ rest =
+      (t!"id: " ++ id) ++ 10 :: (dataLines t!"data: " (splitOn 10 (trimSuffixLF data)) ++ (10 :: rest)) := by
+    simp [writeEvent, hne, List.append_assoc]
+  have hlines : (cutLines (writeEvent id data ++ rest)).1 =
+      (t!"id: " ++ id) :: (((splitOn 10 (trimSuffixLF data)).map (t!"data: " ++ ·) ++ [[]]) ++ (cutLines rest).1) := by
+    rw [hw, cut_line _ _ hidl, cut_dataLines _ hpre _ hpieces]
+    simp [cutLines]
+  rw [hlines, List.foldl_cons, step_id _ id h0, List.foldl_append,
+    fold_event_lines _ (splitOn_ne_nil _) _ (by simpa using hd), joinLF_splitOn]
+
+/-- a well-formed event: id without NUL / line breaks, non-empty data without CR -/
+def GoodEvent (e : Text × Text) : Prop := NoNL e.1 ∧ 0 ∉ e.1 ∧ e.2 ≠ [] ∧ 13 ∉ e.2
+
+private theorem run_stream (es : List (Text × Text)) (h : ∀ e ∈ es, GoodEvent e) :
+    ∀ st : PS, st.data = [] →
+      ((cutLines ((es.map (fun e => writeEvent e.1 e.2)).flatten)).1.foldl stepLine st).events =
+        (es.map (fun e => (e.1, trimSuffixLF e.2))).reverse ++ st.events := by
+  induction es with
+  | nil => intro st _; simp [cutLines]
+  | cons e es ih =>
+    intro st hd
+    obtain ⟨g1, g2, g3, g4⟩ := h e (by simp)
+    simp only [List.map_cons, List.flatten_cons]
+    rw [run_writeEvent e.1 e.2 _ g1 g2 g3 g4 st hd, ih (fun x hx => h x (by simp [hx])) _ rfl]
+    simp
+
+/-- **A stream of events is read back event by event**: whatever number of events `WriteEvent` puts on one connection,
+    one after the other, a reader that follows the WHATWG rules dispatches exactly those events, in that order, each with
+    its own id and its own data (minus one trailing LF) — no event swallows, splits or borrows from its neighbours. -/
+theorem C02_sse_stream_transparent (es : List (Text × Text)) (h : ∀ e ∈ es, GoodEvent e) :
+    parseSSE ((es.map (fun e => writeEvent e.1 e.2)).flatten) = es.map (fun e => (e.1, trimSuffixLF e.2)) := by
+  simp only [parseSSE]
+  rw [run_stream es h _ rfl]
+  simp
+
+-- non-vacuity: two events, the second with a line break inside its data
+example : parseSSE ((([(t!"1", t!"{}"), (t!"2", t!"a\nb")] : List (Text × Text)).map
+    (fun e => writeEvent e.1 e.2)).flatten) = [(t!"1", t!"{}"), (t!"2", t!"a\nb")] := by decide
+
 private theorem trimSuffixLF_of_noLF (data : Text) (hlf : 10 ∉ data) : trimSuffixLF data = data := by
   induction data with
   | nil => rfl
@@ -412,6 +468,22 @@ theorem C02_message_over_sse (id : Text) (j : Json) (hid : NoNL id) (h0 : 0 ∉ 
     parseSSE (writeEvent id (render j)) = [(id, render j)] := by
   have h := C02_message_is_one_line j
   rw [C02_sse_transparent id (render j) hid h0 (render_ne_nil j) h.2, trimSuffixLF_of_noLF _ h.1]
+
+/-- Any number of JSON messages written as SSE events on one stream: a WHATWG-conforming reader dispatches exactly those
+    messages, in order, each with its id and with the rendering of the message, byte for byte, as its data. -/
+theorem C02_messages_over_sse_stream (ms : List (Text × Json)) (hid : ∀ m ∈ ms, NoNL m.1 ∧ 0 ∉ m.1) :
+    parseSSE ((ms.map (fun m => writeEvent m.1 (render m.2))).flatten) = ms.map (fun m => (m.1, render m.2)) := by
+  have hgood : ∀ e ∈ ms.map (fun m => (m.1, render m.2)), GoodEvent e := by
+    intro e he
+    obtain ⟨m, hm, rfl⟩ := List.mem_map.1 he
+    obtain ⟨a, b⟩ := hid m hm
+    exact ⟨a, b, render_ne_nil m.2, (C02_message_is_one_line m.2).2⟩
+  have h := C02_sse_stream_transparent _ hgood
+  simp only [List.map_map, Function.comp_def] at h
+  rw [h]
+  apply List.map_congr_left
+  intro m _
+  simp [trimSuffixLF_of_noLF _ (C02_message_is_one_line m.2).1]
 
 private theorem format_as_dataLines (d : Text) :
     t!"data: " ++ replaceLF d ++ [10] = dataLines t!"data: " (splitOn 10 d) := by
